@@ -69,6 +69,7 @@ func cmdVerify(args []string) int {
 	timeout := fs.Int("timeout", 10, "solver timeout (s)")
 	dump := fs.String("dump", "", "directory to dump failed queries")
 	verbose := fs.Bool("v", false, "verbose")
+	dumpAll := fs.Bool("dumpall", false, "with -dump: write every query, not only the failed ones")
 	fs.Parse(args)
 	P, err := Load(*repo)
 	if err != nil {
@@ -99,6 +100,9 @@ func cmdVerify(args []string) int {
 			for _, r := range rs {
 				if r.Status == "discharged" || r.Status == "cover-undecided" {
 					ok++
+					if *dumpAll && *dump != "" {
+						DumpQuery(r.O, *dump)
+					}
 					if *verbose {
 						fmt.Printf("   ok   %s (%s %.2fs)\n", r.O.Name, r.Solver, r.Seconds)
 					}
